@@ -120,7 +120,8 @@ def merge_stage(c):
   from google.protobuf import duration_pb2
   from vcheck import svc
   nss = ['', ':a', ':a:b', ':b', ':é', ':a\\:b']
-  keys = ['k', 'j', '', 'K', 'é']
+  # keys that spell a namespace boundary: (ns '', key 'a:k') and (ns ':a', key 'k') are different entries
+  keys = ['k', 'j', '', 'K', 'é', 'a:k', 'b:k', ':k', 'a:b:k']
 
   def rand_kv():
     ns, k = c.rng.choice(nss), c.rng.choice(keys)
@@ -198,7 +199,7 @@ class FakePythia:
 
 def gen_history(rng, length):
   nss = ['', ':algo', ':algo:sub', ':user', ':é\\:x']
-  keys = ['k', 'j', '']
+  keys = ['k', 'j', '', 'algo:k', 'sub:k', 'algo:sub:k']     # incl. keys that spell a namespace boundary
   vals = ['', 'v', 'w', 'z']
   ops, next_id, live = [], 1, []
 
